@@ -97,6 +97,8 @@ pub struct UnitCtl {
     pub case_no: u64,
     pub found: Vec<Found>,
     pub stop: bool,
+    /// when the last progress line was written (heartbeat: a long unit is not a stalled one)
+    pub last_beat: std::time::Instant,
 }
 
 impl UnitCtl {
@@ -111,6 +113,7 @@ impl UnitCtl {
             case_no: 0,
             found: vec![],
             stop: false,
+            last_beat: std::time::Instant::now(),
         }
     }
     /// Call before executing a case. Returns false if the case must not be executed.
@@ -119,6 +122,13 @@ impl UnitCtl {
         self.case_no += 1;
         if self.stop {
             return false;
+        }
+        if n % 64 == 0 && self.last_beat.elapsed().as_secs() >= 5 {
+            // heartbeat for the watchdog; never influences what is executed
+            use std::io::Write;
+            println!("H");
+            let _ = std::io::stdout().flush();
+            self.last_beat = std::time::Instant::now();
         }
         if self.report_cases {
             use std::io::Write;
